@@ -105,6 +105,18 @@ C06Extreme(d) ==
      Emit([op |-> "mean.ci", fl |-> "arith", ty |-> "f64", style |-> "ci",
            conf |-> [kind |-> CKinds[ki], level |-> [dec |-> ExtremeLevels[xi]]], li |-> 0,
            data |-> Probe(n), first |-> TRUE, role |-> "base", extreme |-> TRUE])
+\* ... and at pseudo-random levels that are on no grid (31-bit dyadic fractions, at least 1/64 away from the median's level:
+\* two-sided levels in [1/64, 1), one-sided levels in (0, 31/64] and [33/64, 1))
+OffGridLevel(i, ki) ==
+    LET r == Pick(3300 + i, ki, 0, 2113929215)                      \* 63 * 2^25 - 1
+    IN IF ki = 1 THEN [n |-> 33554432 + r, p |-> -31]                \* 2^25 + r
+       ELSE IF r % 2 = 0 THEN [n |-> 1 + (r \div 2), p |-> -31]      \* below 31/64 * ... (strictly inside (0, 1/2))
+       ELSE [n |-> 1107296256 + ((r \div 2) % 1040187391), p |-> -31]     \* 33 * 2^25 + (less than 31 * 2^25 - 1): below 1
+C06OffGrid(d) ==
+  \A n \in {3, 5, 11, 31} : \A i \in 1..12 : \A ki \in 1..3 :
+     Emit([op |-> "mean.ci", fl |-> "arith", ty |-> "f64", style |-> "ci",
+           conf |-> [kind |-> CKinds[ki], level |-> OffGridLevel(i, ki)], li |-> 0,
+           data |-> Probe(n), first |-> TRUE, role |-> "base", extreme |-> TRUE, offgrid |-> TRUE])
 
 \* ---- C04 ----------------------------------------------------------------------------------------
 Seq1(xs) == [rle |-> [i \in DOMAIN xs |-> <<xs[i], 1>>], order |-> "asc"]
@@ -226,7 +238,7 @@ C09FoldPart(d) ==
 
 Next == /\ ~done
         /\ done' = TRUE
-        /\ CASE Part = "c01" -> C01Part(done) [] Part = "c06" -> (C06Part(done) /\ UnbalancedUnpaired(done) /\ C06Extreme(done))
+        /\ CASE Part = "c01" -> C01Part(done) [] Part = "c06" -> (C06Part(done) /\ UnbalancedUnpaired(done) /\ C06Extreme(done) /\ C06OffGrid(done))
              [] Part = "c04" -> (C04Part(done) /\ ScaledUnpaired(done) /\ UnbalancedUnpaired(done)) [] Part = "c05" -> C05Part(done)
              [] Part = "designed" -> DesignedPart(done) [] Part = "c09fold" -> C09FoldPart(done)
 Spec == Init /\ [][Next]_done
